@@ -11,6 +11,8 @@ def run(tier):
         # leak-freedom of the failed call (R04.1 on unwind exits) is part of the statement ("nothing leaked")
         return (x.ok and x.sample and x.sample.get('exit') == 'unwind') or (not x.ok and x.key.get('exit') == 'unwind')
     res = parts.run_parts(ck, tier, ir_parts=('ir_strong', 'ir_alloc'), rule_filter=keep)
+    from .. import irrules
+    irrules.run_canaries(ck, {'ir_strong': [('R05.2', 'canary_size_first')]}, silent=('canary_ok_alloc',))
     r = res.get('ir_strong', [])
     ck.floor('public entry points walked', sum(x['res']['entry_points'] for x in r), 200 if tier == 'quick' else 2000)
     ck.floor('complete paths judged', sum(x['res']['paths'] for x in r), 4000 if tier == 'quick' else 40000)
